@@ -1062,7 +1062,7 @@ impl Stdfs {
         // Doesn't error out if it exists
         if !Stdfs::exists(&path) {
             fs::create_dir_all(&path)?;
-        } else if !Stdfs::is_dir(&path) {
+        } else if !path.is_dir() {
             return Err(PathError::IsNotDir(path).into());
         }
 
